@@ -85,6 +85,19 @@ func c07Cases(level int) []SCase {
 					cases = append(cases, SCase{ID: "C07/def/" + name, Cfg: baseCfg(), Axes: ax("def"),
 						Schema: J{"type": "object", "properties": J{"d": J{"$ref": "#/$defs/D"}, "do": J{"$ref": "#/$defs/D"}}, "required": A{"d"}, "$defs": J{"D": arr}}})
 				}
+				if depth == 1 && (el.name == "int" || el.name == "str") {
+					// the same array with a default (a valid value chosen by the reference model): an explicit array is still checked
+					if lm, err := refmodel.New(map[string]string{"s.json": space.Text(arr)}, "s.json"); err == nil {
+						if ds := lm.Docs(1); len(ds) > 0 && lm.Valid(ds[0].V) == refmodel.Accept {
+							if dv, ok := ds[0].V.([]any); ok {
+								ad := space.Clone(arr)
+								ad["default"] = dv
+								cases = append(cases, SCase{ID: "C07/default/" + name, Cfg: baseCfg(), Axes: ax("default"),
+									Schema: J{"type": "object", "properties": J{"k": J{"type": "integer"}, "ad": ad}}})
+							}
+						}
+					}
+				}
 				if depth == 1 {
 					cases = append(cases, SCase{ID: "C07/root/" + name, Cfg: baseCfg(), Axes: ax("root"), Schema: space.Clone(arr)})
 					cases = append(cases, SCase{ID: "C07/nested/" + name, Cfg: baseCfg(), Axes: ax("nested"),
